@@ -145,6 +145,11 @@ pub fn random_complete_lengths(r: &mut Rng, n: usize, maxd: u8, skew: u64) -> Ve
     leaves
 }
 
+thread_local! {
+    /// set by `dynamic_lengths_for` while it builds a code of shape 2 (see GenCfg::code_shape)
+    static DEEP_INVERTED: std::cell::Cell<bool> = std::cell::Cell::new(false);
+}
+
 /// code lengths over an alphabet of `used.len()` symbols in which every used symbol (plus
 /// `extra_syms` unused ones) gets a code; optionally frequency-sorted (Huffman-like)
 pub fn lengths_for_used(
@@ -178,6 +183,13 @@ pub fn lengths_for_used(
         lens.sort();
         idx.sort_by(|&a, &b| freq[b].cmp(&freq[a]));
     }
+    if DEEP_INVERTED.with(|d| d.get()) {
+        // always split the deepest leaf: code lengths 1, 2, 3, ... up to maxd; longest codes to the most
+        // frequent symbols, ties broken towards high symbol numbers (far distances, long lengths)
+        lens = random_complete_lengths(r, idx.len(), maxd, 10);
+        lens.sort_by(|a, b| b.cmp(a));
+        idx.sort_by(|&a, &b| freq[b].cmp(&freq[a]).then(b.cmp(&a)));
+    }
     let mut out = vec![0u8; n];
     for (k, &i) in idx.iter().enumerate() {
         out[i] = lens[k];
@@ -202,6 +214,9 @@ pub struct GenCfg {
     pub max_code_len: u8,
     /// never use run-length symbols 16/17/18 in dynamic headers
     pub no_rle: bool,
+    /// 0 = random complete code, random or frequency-sorted assignment; 2 = maximally deep code with the
+    /// LONGEST codes given to the MOST frequent symbols (what no compressor would emit)
+    pub code_shape: u8,
 }
 
 impl GenCfg {
@@ -236,6 +251,7 @@ impl GenCfg {
             empty_blocks: r.chance(1, 4),
             max_code_len: *r.pick(&[15, 15, 15, 10, 9, 7]),
             no_rle: r.chance(1, 8),
+            code_shape: if r.chance(1, 6) { 2 } else { 0 },
         }
     }
     pub fn describe(&self) -> String {
@@ -467,6 +483,7 @@ pub fn dynamic_lengths_for(r: &mut Rng, toks: &[Tok], cfg: &GenCfg) -> (Vec<u8>,
     }
     let opt = r.chance(1, 2);
     let extra = if cfg.slack && r.chance(1, 3) { r.usize_below(6) } else { 0 };
+    DEEP_INVERTED.with(|d| d.set(cfg.code_shape == 2));
     // 286 used symbols need depth >= 9
     let nl = lu.iter().filter(|&&x| x).count() + extra;
     let mut maxd = cfg.max_code_len.max(2);
@@ -476,6 +493,7 @@ pub fn dynamic_lengths_for(r: &mut Rng, toks: &[Tok], cfg: &GenCfg) -> (Vec<u8>,
     let ll = lengths_for_used(r, &lu, &lf, maxd.min(15), opt, extra);
     let dx = if cfg.slack && r.chance(1, 3) { r.usize_below(3) } else { 0 };
     let dl = lengths_for_used(r, &du, &df, cfg.max_code_len.clamp(5, 15), opt, dx);
+    DEEP_INVERTED.with(|d| d.set(false));
     (ll, dl)
 }
 
